@@ -18,7 +18,9 @@ EXPLANATION = (
     "precompute_fields list the same argument groups under the same conditions; (R01.7) support intervals, offsets and slices are all "
     "in Gauss-node units (cells x nqp); (R01.9) the structural hash that common-subexpression extraction merges on separates "
     "expressions that differ in an identifying attribute (injective flow into hash_key) or in the order of their operands "
-    "(no order-destroying combiner of the child hashes).")
+    "(no order-destroying combiner of the child hashes); (R01.10) the context-free emitter parenthesises every infix expression; "
+    "R01.4 also requires the nqp template to cover all used spaces, R01.7 parses the emitted offset / support conversions and "
+    "requires the common node count as unit.")
 DOES_NOT_DECIDE = "equality of any matrix entry with the Gauss sum; that the C compiler accepts the module on every platform; numerical kernels beyond these rules"
 TECHNIQUE = "custom AST rules over generator, emitted-code templates and lowered generated Cython: table agreement, zero-initialisation provenance, guard dominance, sibling comparison of emitted protocol"
 
